@@ -17,6 +17,14 @@ good, wrong kind, tag-violating, container with a null element}, positional and 
 notification, on a server WITH the production validator and WITHOUT one; the mechanism "a nil struct pointer
 is not handed to the validator" is a switch (NilPointerSkipsValidation) whose FALSE side TLC must refute.
 
+(e) THE EXCHANGE'S CONTEXT (deadline / cancellation): the context arrives live, expired or cancelled, or ends at any moment
+of a batch's dispatch (before the first entry has a worker, while an earlier entry occupies the only one, between two entries,
+after the last), on a 1- (thorough: and 2-) worker pool, with and without the HTTP admission gate - the only place where the code
+looks at the context: one response per owed entry and one handler call per valid request in EVERY such state (POnePerEntry,
+PInvocations, PHandlerOnceOrError), refusal only by the gate and only for a context that had ended at arrival (PRefusal), every
+handler handed the request's context (PCtxSeen); the mutants "a request whose deadline has passed / whose context is cancelled is
+treated like a notification" (SilentOnCtx) are refuted by TLC (expected-violation runs).
+
 Binding: the faithful exhaustive run exports one row per finished exchange; every row is rendered
 to bytes and sent to a real jsonrpc.Server with recording handlers (HandleReader, HandleReadWriter,
 HTTP handler), at once or in seeded CHUNKS (chunking io.Reader / body streamed through io.Pipe), at
@@ -29,6 +37,12 @@ mirrored tagged structs and the REAL rpc/v10 parameter types (BlockID, Subscript
 EventArgs, ResourceBoundsMap / ResourceBounds); the validating servers are built WithValidator(rpcv10.Validator())
 as the node does; the handlers log a canonical text of the Go values they receive (nil vs zero vs value). Plus seeded
 byte-level mutants judged with encoding/json + the abstraction function + the exhaustive table.
+The context dimension (TestJsonRpcCtx): every exported row (single / batch of one x context state at arrival x gate) through
+HandleReader, HandleReadWriter (requestTimeout 0 / 1 h / 1 ns) and the HTTP handler (WithRequestTimeout 0 / 1 h / 1 ns, WithGate)
+under std contexts (WithDeadline in the past, WithCancel + cancel) and a manually ended one; TLC-simulated batches with a schedule
+on 1- and 2-worker pools: the real server's handlers park at gates, the replayer lets them return and ends the context in the
+model's order (no sleeps, no timing assumption); a few rounds with the real timers of WithRequestTimeout / requestTimeout whose
+first handler returns when it has seen its context end. Answers, handler log and the context state every handler saw are compared.
 """
 import json
 import os
@@ -56,6 +70,57 @@ def asis(ctx, cfg):
     return {cfg: text}
 
 INVS = "TypeOK PShape POnePerEntry PResponses PTopLevel PInvocations PInFlight"
+
+
+def ctx_rows_of(res):
+    rows, seen = [], set()
+    for line in res["out"].splitlines():
+        if line.startswith('"{'):
+            try:
+                r = json.loads(json.loads(line))
+            except Exception:
+                raise vlib.Broken("unparsable row exported by TLC: " + line[:200])
+            if r["cx"] != r["cx0"]:
+                continue   # the context ended during the dispatch of a batch of one: schedules are replayed from the simulated behaviours
+            k = json.dumps([r["top"], r["cx0"], r["cx"], r["gated"], r["entries"]], sort_keys=True)
+            if k not in seen:
+                seen.add(k)
+                rows.append(r)
+    if not rows:
+        raise vlib.Broken("TLC exported no rows for %s" % res["label"])
+    return rows
+
+
+def context_dimension(ctx, binary, thorough):
+    """(e) deadlines / cancellation: TLC on the context dimension of JsonRpc.tla, then TestJsonRpcCtx on the real server."""
+    r = ctx.tlc_check(FAMILY, "MCJsonRpc.tla", "JsonRpc_ctx_batch1.cfg", timeout=1500, coverage=thorough, files=asis(ctx, "JsonRpc_ctx_batch1.cfg"),
+                      label="as-is: context live / expired / cancelled at arrival or ending mid-batch, batches <= 3, 1 worker, gate / no gate")
+    if thorough:
+        vlib.require_actions_covered(r)
+        ctx.tlc_check(FAMILY, "MCJsonRpc.tla", "JsonRpc_ctx_batch2.cfg", timeout=3000, files=asis(ctx, "JsonRpc_ctx_batch2.cfg"),
+                      label="as-is: context dimension, batches <= 3, 2 workers")
+        ctx.tlc_check(FAMILY, "MCJsonRpc.tla", "JsonRpc_ctx_fixed.cfg", timeout=1500, label="repaired: context dimension, all top-level kinds")
+    t = ctx.tlc_check(FAMILY, "JsonRpcMBT.tla", "JsonRpc_ctx_table.cfg", timeout=600, files=asis(ctx, "JsonRpc_ctx_table.cfg"),
+                      label="as-is: context state at arrival x gate, singles + batches of one (exported)")
+    rows = ctx_rows_of(t)
+    for cfg, inv, lab in (("JsonRpc_ctx_expired_silent.cfg", "POnePerEntry", "mutant: expired deadline treated like a notification"),
+                          ("JsonRpc_ctx_cancelled_silent.cfg", "PHandlerOnceOrError", "mutant: cancelled context, entry skipped")):
+        h = ctx.tlc_check(FAMILY, "MCJsonRpc.tla", cfg, timeout=600, expect_violation=True, label="%s: %s must fail" % (lab, inv),
+                          files=asis(ctx, cfg))
+        if h["violated"] != inv:
+            raise vlib.Broken("the mutant model no longer violates %s (%s)" % (inv, h["violated"]))
+        ctx.tlc_runs[-1]["expected_violation"] = inv
+    behaviours = []
+    for i, cfg in enumerate(("JsonRpc_ctxsim1.cfg", "JsonRpc_ctxsim2.cfg")):
+        for j in range(3 if thorough else 1):
+            behaviours += ctx.tlc_simulate(FAMILY, "JsonRpcCtxMBT.tla", cfg, depth=20000 if thorough else 6000,
+                                           seed=ctx.seed * 1000 + 500 + 10 * i + j, timeout=900, files=asis(ctx, cfg))
+    payload = {"rows": rows, "behaviours": behaviours, "timers": 12 if thorough else 6, "seed": ctx.seed, "selftest": True}
+    res = ctx.run_engine(binary, "TestJsonRpcCtx", payload, timeout=1500)
+    ctx.absorb(res, "jsonrpc", "TestJsonRpcCtx")
+    ctx.coverage["context_rows_exported"] = len(rows)
+    ctx.coverage["context_behaviours_simulated"] = len(behaviours)
+    return res, payload
 
 
 def rows_of(res):
@@ -112,7 +177,7 @@ def run(ctx):
     r = ctx.tlc_check(FAMILY, "MCJsonRpc.tla", "JsonRpc_batch_quick.cfg", timeout=1500, coverage=thorough, files=asis(ctx, "JsonRpc_batch_quick.cfg"),
                       label="as-is: batches <= 3, pool 2")
     if thorough:
-        vlib.require_actions_covered(r)
+        vlib.require_actions_covered(r, ignore=("CtxEnd",))   # (the context dimension has its own configurations)
         ctx.tlc_check(FAMILY, "MCJsonRpc.tla", "JsonRpc_batch_thorough.cfg", timeout=3000, files=asis(ctx, "JsonRpc_batch_thorough.cfg"),
                       label="as-is: batches <= 4, pool 2")
         ctx.tlc_check(FAMILY, "MCJsonRpc.tla", "JsonRpc_batch_thorough3.cfg", timeout=3000, files=asis(ctx, "JsonRpc_batch_thorough3.cfg"),
@@ -144,6 +209,9 @@ def run(ctx):
         batches += ctx.tlc_simulate(FAMILY, "JsonRpcMBT.tla", "JsonRpc_sim.cfg", depth=depth,
                                     seed=ctx.seed * 1000 + i, timeout=900, files=asis(ctx, "JsonRpc_sim.cfg"))
 
+    # ---- (e) the exchange's context: deadlines and cancellation
+    ctx_res, ctx_payload = context_dimension(ctx, binary, thorough)
+
     payload = {"rows": rows, "batches": batches, "renderings": 3 if thorough else 1,
                "mutations": 400000 if thorough else 60000, "seed": ctx.seed, "selftest": True}
     res = ctx.run_engine(binary, "TestJsonRpcReplay", payload, timeout=3000)
@@ -174,6 +242,22 @@ def run(ctx):
                 or not st.get("typed_tag_violation_refused_by_validator") or not st.get("typed_tag_violation_accepted_without_validator") \
                 or not st.get("typed_null_refused") or not st.get("mutants_of_typed_methods_classified"):
             raise vlib.Broken("engine replayed too little: %s" % st)
+    if not ctx.violations:
+        cst = ctx_res.get("stats", {})
+        if cst.get("engine_panics"):
+            raise vlib.Broken("the context engine itself panicked: %s" % ctx_res.get("samples"))
+        if cst.get("selftest_missed") or not cst.get("selftest_caught"):
+            raise vlib.Broken("context binding self-test: a mutant's outcome was accepted (%s missed, %s caught)" % (
+                cst.get("selftest_missed"), cst.get("selftest_caught")))
+        if cst.get("harness_timeouts", 0) > 5:
+            raise vlib.Broken("context dimension: %s awaited events of the real server did not come within the harness deadline "
+                              "(harness timeout, not a verdict)" % cst.get("harness_timeouts"))
+        need = ("ctx_rows_conforming", "ctx_refused_by_gate", "ctx_ended_at_arrival_invoking_a_handler", "ctx_behaviours_conforming",
+                "ctx_situation_expired_during_batch", "ctx_situation_cancelled_during_batch",
+                "ctx_handlers_dispatched_after_the_context_ended_mid_batch", "ctx_handlers_called_after_the_deadline",
+                "ctx_handlers_called_after_cancellation", "ctx_timer_rounds_conforming")
+        if any(not cst.get(k) for k in need) or cst.get("ctx_row_exchanges", 0) < len(ctx_payload["rows"]):
+            raise vlib.Broken("context engine replayed too little: %s" % cst)
     ctx.coverage["rows_exported_exhaustively"] = len(rows)
     ctx.coverage["simulated_batches"] = len(batches)
     ctx.coverage["exhaustive"] = False
@@ -188,6 +272,8 @@ def run(ctx):
         "only the first JSON value of the byte stream is the request; trailing bytes are not judged",
         "member names are matched as encoding/json does; inputs with duplicate or case-folded member names "
         "(other than a duplicated id) are judged for well-formedness of the answer only",
+        "a refusal by the HTTP admission gate (503 before the body is read, for a context that has already ended) is not a "
+        "request the server received; past the gate the state of the context never excuses a missing response",
         "handlers of the harness method table return non-nil results (a handler returning an untyped nil result would be "
         "serialised without result member; no juno handler does)",
     ]
@@ -201,5 +287,8 @@ def run(ctx):
         "by encoding/json + abstraction + the exhaustive table; typed methods (parameter type classes struct / *struct / *scalar / "
         "[]struct / []*struct / map[string]*struct / custom UnmarshalJSON, real rpc/v10 types) x {omitted, null, good, wrong kind, "
         "tag-violating, null element} exhaustively, on servers with the production validator rpcv10.Validator() and without one, "
-        "3 renderings per row; non-trivial = the answer bytes are parsed and compared "
+        "3 renderings per row; the context dimension: every (single / batch of one) x (context live / expired / cancelled at arrival) x "
+        "(gate / no gate) row through HandleReader / HandleReadWriter / HTTP with the transports' timeout options, TLC-simulated batches of "
+        "<= 4 entries on 1- and 2-worker pools with a gate-enforced schedule in which the context ends mid-batch, real-timer rounds; "
+        "non-trivial = the answer bytes are parsed and compared "
         "(shape, one response per owed entry, id, result/error, code, payload) and the handler log is compared")
